@@ -229,6 +229,7 @@ type PtrOps struct {
 	Default    string // description the getter must give on a null pointer ("" = none checked)
 	HasDefault bool
 	NullStore  bool // Set stores a null value: the slot ends up null, everything else is as for any store
+	Lenient    bool // the getter is not generated with a discriminant check
 }
 
 func CheckPtr(t *testing.T, s PtrSpec, ops PtrOps, which func(capnp.Struct) int) {
@@ -308,7 +309,7 @@ func CheckPtr(t *testing.T, s PtrSpec, ops PtrOps, which func(capnp.Struct) int)
 					Fail(t, "has-ignores-discriminant", "%s: Has reports true although Which() is %d, not %d", s.Name, getDisc(st, s.Layout), s.DiscVal)
 				}
 			}
-			if ops.Get != nil {
+			if ops.Get != nil && !ops.Lenient {
 				Checks++
 				if !panics(func() { ops.Get(st) }) {
 					Fail(t, "getter-ignores-discriminant", "%s: the getter returned although Which() is %d, not %d", s.Name, getDisc(st, s.Layout), s.DiscVal)
